@@ -322,7 +322,22 @@ def run_op_with_images(kind, prep, op, C, cfgbackend=False, warm=(), interrupts=
                             variants.append((tag + ":" + rel, tp))
             for (torn, vp) in variants:
                 o = observe(kind, vp, C)
-                records.append({"k": k, "gate": gate, "torn": torn, "obs": o})
+                records.append({"k": k, "gate": gate, "torn": torn, "obs": o, "rerr": ""})
+            # the client repeats the request after the restart (it never saw an answer): whatever
+            # the crash left behind, an acknowledged repetition has to be in effect
+            if op["t"] != "http" and not warm:
+                rp = ipath + "-retry"
+                shutil.copytree(ipath, rp, symlinks=True)
+                for dp, dns, fns in os.walk(rp):
+                    for fn in fns:
+                        if fn.endswith(".lock"):        # stale locks of the dead process are cleared
+                            os.unlink(os.path.join(dp, fn))
+                rerr = ""
+                try:
+                    apply_op(open_store(kind, rp), op)
+                except Exception as exc:
+                    rerr = type(exc).__name__
+                records.append({"k": k, "gate": gate, "torn": "retry", "obs": observe(kind, rp, C), "rerr": rerr})
         gates = [g for (_, g, _, _) in im.images if g in KEEP]
         return {"kind": kind, "cfgbackend": cfgbackend, "op": op, "pre": pre, "final": final,
                 "oper_error": err, "images": records + irecords, "gates": gates, "nevents": im.k,
